@@ -179,6 +179,50 @@ def make_h(fam, cname, nops, fop=None):
     return h
 
 
+def make_ctor_copy(fam):
+    bootstrap = fam == "eager"
+
+    @spec_class(do_not_copy=["big"], bootstrap=bootstrap)
+    class DN:
+        big: List[int] = Attr(default_factory=list)
+        tags: List[int] = []
+        opts: Dict[str, int] = {}
+        inn: FAM[fam]["In"] = Attr(default_factory=FAM[fam]["In"])
+
+    def h(pb: bool, pt: bool, po: bool, pi: bool, v: int, mut: int) -> str:
+        kw, args = {}, {}
+        if pb:
+            args["big"] = kw["big"] = [v]
+        if pt:
+            args["tags"] = kw["tags"] = [v, 2]
+        if po:
+            args["opts"] = kw["opts"] = {"k": v}
+        if pi:
+            args["inn"] = kw["inn"] = FAM[fam]["In"](a=v, tags=["t"])
+        o = DN(**kw)
+        if pb:
+            check(o.big is args["big"], "do_not_copy attributes are carried by identity", "C08/ctor/do-not-copy-copied")
+        for n in ("tags", "opts", "inn"):
+            if n in args:
+                check(getattr(o, n) is not args[n], "the constructor stores a copy of every supplied mutable value (do_not_copy attributes excepted)", f"C08/ctor/arg-stored-by-identity-{n}", lambda: f"given {sorted(args)}")
+        before = {"tags": [x for x in args.get("tags", [])], "opts": {k: x for k, x in args.get("opts", {}).items()}, "inn": (args["inn"].a, [t for t in args["inn"].tags]) if "inn" in args else None}
+        m = pick(["tags.append", "opts[zz]", "inn.a", "inn.tags.append"], mut)
+        if m == "tags.append":
+            o.tags.append(99)
+        elif m == "opts[zz]":
+            o.opts["zz"] = 1
+        elif m == "inn.a":
+            o.inn.a = 99
+        else:
+            o.inn.tags.append("zz")
+        after = {"tags": [x for x in args.get("tags", [])], "opts": {k: x for k, x in args.get("opts", {}).items()}, "inn": (args["inn"].a, [t for t in args["inn"].tags]) if "inn" in args else None}
+        check(before == after, "mutating one instance in place, at any nesting depth, changes neither ... the object that was passed to its constructor", f"C08/ctor/arg-changed/{m}", lambda: f"given {sorted(args)}: {before!r} -> {after!r}")
+        return "ok"
+
+    h.__name__ = f"ctor_copy_{fam}"
+    return h
+
+
 def _warm(nops):
     out = []
     for arg in (False, True):
@@ -196,4 +240,5 @@ def obligations(tier):
     for fam in ("eager",) if tier == "quick" else ("eager", "lazy"):
         for cname, fop in [(c, f) for c in ("D", "SD", "PD") for f in range(7)]:
             obs.append(Ob(f"C08.{fam}.{cname}.h{nops}.first-op{fop}", make_h(fam, cname, nops, fop), [w for w in _warm(nops) if w[3] == fop], f"class {cname} ({fam}): attributes declared with a mutable literal, Attr(default=), Attr(default_factory=), dataclasses.field(default_factory=) (dict and set), nested spec default, no default{'; overrides in a spec subclass' if cname == 'SD' else ''}{'; overrides in a plain subclass' if cname == 'PD' else ''}; constructor argument given or not (symbolic), history of {nops} operations (first operation kind fixed per shard: {fop}) with symbolic selectors over 7 operation kinds x 6 attributes", expect={"ok"}, timeout=T))
+        obs.append(Ob(f"C08.{fam}.ctor-copy", make_ctor_copy(fam), [(a, b, c, d, 5, m) for a in (False, True) for b in (False, True) for c in (False, True) for d in (False, True) for m in range(4)], "class with a do_not_copy attribute declared BEFORE mutable attributes: every subset of {big, tags, opts, inn} passed to the constructor (symbolic bits), then one in-place mutation (symbolic) of the instance: arguments other than the do_not_copy one are neither stored by identity nor changed", expect={"ok"}, timeout=T))
     return obs
